@@ -448,7 +448,7 @@ impl Prop for C12 {
         Ok(())
     }
     fn rule(&self) -> String {
-        "generated (site |lat|<=62, GMT within 2 h, 9 methods, policy None or the library default, date mixture) x one perturbation (minute offset in [-90,90] on one of the 7 keys; Fajr/Isha/Imsaak interval in [1,120]; school swap; Fajr or Isha angle +-1 under policy None; weather over its range; default weather vs absent). Each case is a pair of calls. Non-trivial = the perturbed prayer exists so the exact-shift/exact-value clause was evaluated; distinct by hash of the case".into()
+        "generated (site |lat|<=62, GMT within 2 h, 9 methods, policy None or the library default, date mixture) x one perturbation (minute offset in [-90,90] on one of the 7 keys; Fajr/Isha/Imsaak interval in [1,120]; school swap; Fajr or Isha angle +-1 under policy None; weather over its range; default weather vs absent). Each case is a pair of calls. Interval perturbations are also made on top of Fajr/Isha intervals already present; offsets are also constructed so that the shifted time lands within +-3 s of midnight; one case in 41 is a short-night case (|lat| 59.5-62 around the solstice, all three intervals 80-120); every case is preceded by a priming call with a sibling input. Non-trivial = the perturbed prayer exists so the exact-shift/exact-value clause was evaluated; distinct by hash of the case".into()
     }
     fn assumptions(&self) -> Vec<String> {
         vec![
